@@ -245,6 +245,20 @@ def _terminates(body):
     return False
 
 
+def _drop_trailing_continue(body):
+    """N18: a `continue` that is the last thing a loop body would do anyway (also at the end of the arms of a final if) is dropped"""
+    if not body:
+        return body
+    last = body[-1]
+    if isinstance(last, ast.Continue):
+        return body[:-1] or [ast.Pass()]
+    if isinstance(last, ast.If):
+        last.body = _drop_trailing_continue(last.body)
+        if last.orelse:
+            last.orelse = _drop_trailing_continue(last.orelse)
+    return body
+
+
 class _Norm(ast.NodeTransformer):
     def __init__(self, counts):
         self.counts = counts     # name -> (stores, loads) in the enclosing outermost function
@@ -318,6 +332,7 @@ class _Norm(ast.NodeTransformer):
         return n
 
     def _block(self, stmts):
+        stmts = self._split_tuples(stmts)
         out = []
         i = 0
         while i < len(stmts):
@@ -349,12 +364,32 @@ class _Norm(ast.NodeTransformer):
             i += 1
         return out or [ast.Pass()]
 
+    def _split_tuples(self, stmts):
+        """N12: a, b = x, y  ->  a = x; b = y   when no target is read by a later element (plain names only)"""
+        out = []
+        for st in stmts:
+            if isinstance(st, ast.Assign) and len(st.targets) == 1 and isinstance(st.targets[0], ast.Tuple) and isinstance(st.value, ast.Tuple) and \
+                    len(st.targets[0].elts) == len(st.value.elts) and all(isinstance(t, ast.Name) for t in st.targets[0].elts):
+                names = [t.id for t in st.targets[0].elts]
+                ok = True
+                for k, v in enumerate(st.value.elts):
+                    if any(isinstance(x, ast.Name) and x.id in names[:k] for x in ast.walk(v)):
+                        ok = False
+                if ok:
+                    for t, v in zip(st.targets[0].elts, st.value.elts):
+                        out.append(ast.copy_location(ast.Assign(targets=[t], value=v), st))
+                    continue
+            out.append(st)
+        return out
+
     def generic_visit(self, node):
         super().generic_visit(node)
         for fld in ('body', 'orelse', 'finalbody'):
             b = getattr(node, fld, None)
             if isinstance(b, list) and b and isinstance(b[0], ast.stmt):
                 setattr(node, fld, self._block(b))
+        if isinstance(node, (ast.For, ast.While)):
+            node.body = _drop_trailing_continue(node.body)     # after N9 moved the rest of the body into else arms
         return node
 
 
@@ -373,6 +408,44 @@ def normalise(tree):
     return tree
 
 
+def nested_defs(fn):
+    """[(name, [parameter names])] of the function definitions nested in an outermost function, in source order"""
+    out = []
+    for n in ast.walk(fn):
+        if isinstance(n, (ast.FunctionDef, ast.AsyncFunctionDef)) and n is not fn:
+            out.append((n.name, [a.arg for a in n.args.args]))
+    return out
+
+
+def _rename_nested_params(fn, ref_nested):
+    """a nested helper whose parameters were renamed (same helper by name, same arity): rename them back inside it"""
+    want = dict((n, ps) for n, ps in ref_nested)
+    for n in ast.walk(fn):
+        if isinstance(n, (ast.FunctionDef, ast.AsyncFunctionDef)) and n is not fn and n.name in want:
+            cur = [a.arg for a in n.args.args]
+            ref = want[n.name]
+            if cur != ref and len(cur) == len(ref):
+                mp = dict((c, r) for c, r in zip(cur, ref) if c != r)
+                inner_stores = set(x.id for x in ast.walk(n) if isinstance(x, ast.Name) and isinstance(x.ctx, ast.Store))
+                if set(mp.values()) & (set(cur) | inner_stores):
+                    continue
+                for a in n.args.args:
+                    if a.arg in mp:
+                        a.arg = mp[a.arg]
+                for x in ast.walk(n):
+                    if isinstance(x, ast.Name) and x.id in mp:
+                        x.id = mp[x.id]
+
+
+def new_locals(rel, qual, fn):
+    """locals of a function that the reference function does not have (after renaming): candidates for N10"""
+    ref = reference().get(rel, {}).get(qual)
+    if ref is None:
+        return set()
+    have = set(n for n, s in ref)
+    return set(n for n, s in signatures(fn)) - have
+
+
 def canonicalise(rel, tree, stats=None):
     """Rename the locals of every function of `tree` whose spelling differs from the reference table.  Returns the number
     of functions touched."""
@@ -380,7 +453,10 @@ def canonicalise(rel, tree, stats=None):
     if not ref:
         return 0
     touched = 0
+    refn = ref.get('__nested__', {})
     for qual, fn in outer_functions(tree):
+        if qual in refn:
+            _rename_nested_params(fn, refn[qual])
         want = ref.get(qual)
         if want is None:
             continue
@@ -410,8 +486,8 @@ def canonicalise(rel, tree, stats=None):
             del mapping[c]
         if not mapping:
             continue
-        # never capture a parameter, global or builtin
-        bad = _params(fn) | _BUILTINS
+        # never capture a parameter (a builtin is fine: the reference function itself used that spelling for a local)
+        bad = _params(fn)
         mapping = dict((c, r) for c, r in mapping.items() if r not in bad)
         if mapping:
             _rename(fn, mapping)
@@ -433,12 +509,20 @@ def build_reference(sources):
             continue
         normalise(tree)
         fns = {}
+        allq = []
+        nested = {}
         for qual, fn in outer_functions(tree):
+            allq.append(qual)
+            nd = nested_defs(fn)
+            if nd:
+                nested[qual] = [[n, ps] for n, ps in nd]
+                allq += ['%s.<locals>.%s' % (qual, n) for n, ps in nd]
             sigs = signatures(fn)
             if sigs:
                 fns[qual] = [[n, s] for n, s in sigs]
-        if fns:
-            out[rel] = fns
+        fns['__functions__'] = allq
+        fns['__nested__'] = nested
+        out[rel] = fns
     return out
 
 
